@@ -70,7 +70,7 @@ Proof.
   intros Hi. unfold row_bits, pattern_ids. cbn [pattern_indices].
   destruct (Z.leb_spec 1 i); [|lia]. destruct (Z.leb_spec i n); [|lia]. cbn [andb flat_map]. rewrite app_nil_r, map_map.
   apply map_ext_in. intros b Hb. unfold down_range in Hb. apply in_map_iff in Hb as [c [<- Hc]]. apply in_zrange in Hc.
-  cbn [to_id]. destruct (Z.leb_spec 1 i); [|lia]. destruct (Z.leb_spec i n); [|lia].
+  cbn [vg_to_id]. destruct (Z.leb_spec 1 i); [|lia]. destruct (Z.leb_spec i n); [|lia].
   destruct (Z.leb_spec 0 (bitlength m - 1 - c)); [|lia]. destruct (Z.ltb_spec (bitlength m - 1 - c) (bitlength m)); [|lia]. reflexivity.
 Qed.
 
@@ -113,9 +113,9 @@ Qed.
 
 (* forbid(i,j) is falsified exactly when pigeon i's bits spell j *)
 Theorem forbid_sem a off n m i j : 0 <= off -> 1 <= i <= n -> 0 <= j < 2 ^ bitlength m ->
-  exists c, forbid off n m i j = Some c /\ clause_sat a c = negb (value a off n m i =? j) /\ lits_ok c = true.
+  exists c, bm_forbid off n m i j = Some c /\ clause_sat a c = negb (value a off n m i =? j) /\ lits_ok c = true.
 Proof.
-  intros Hoff Hi Hj. unfold forbid. destruct (Z.geb_spec j (2 ^ bitlength m)) as [G|G]; [lia|].
+  intros Hoff Hi Hj. unfold bm_forbid. destruct (Z.geb_spec j (2 ^ bitlength m)) as [G|G]; [lia|].
   destruct (row_bits_len off n m i Hi) as [L1 L2].
   assert (P : forall x, In x (row_bits off n m i) -> 0 < x) by (intros; eapply row_bits_pos; eauto).
   destruct (flips_clause a (row_bits off n m i) P j ltac:(rewrite L1; lia)) as [sg [E1 E2]].
@@ -172,9 +172,9 @@ Section Binary.
   Let val := value a off n m.
 
   Theorem bin_complete_sem :
-    irs_hold a (force_complete off (MBinary n m)) = true <-> forall i, 1 <= i <= n -> val i < m.
+    irs_hold a (vm_force_complete off (MBinary n m)) = true <-> forall i, 1 <= i <= n -> val i < m.
   Proof.
-    cbn [force_complete m_domain]. rewrite irs_hold_flat_map, forallb_forall. pose proof (m_le_pow m Hm) as Mp. split.
+    cbn [vm_force_complete m_domain]. rewrite irs_hold_flat_map, forallb_forall. pose proof (m_le_pow m Hm) as Mp. split.
     - intros H i Hi. specialize (H i ltac:(apply in_zrange; lia)). rewrite irs_hold_map, forallb_forall in H.
       pose proof (value_range a off n m i Hi) as Vr. fold val in Vr.
       destruct (Z.lt_ge_cases (val i) m) as [C|C]; [exact C|]. exfalso.
@@ -186,10 +186,10 @@ Section Binary.
   Qed.
 
   Theorem bin_injective_sem :
-    irs_hold a (force_injective off (MBinary n m)) = true <->
+    irs_hold a (vm_force_injective off (MBinary n m)) = true <->
     forall x1 x2, 1 <= x1 < x2 /\ x2 <= n -> val x1 = val x2 -> m <= val x1.
   Proof.
-    cbn [force_injective m_domain m_range]. rewrite irs_hold_flat_map, forallb_forall. pose proof (m_le_pow m Hm) as Mp. split.
+    cbn [vm_force_injective m_domain m_range]. rewrite irs_hold_flat_map, forallb_forall. pose proof (m_le_pow m Hm) as Mp. split.
     - intros H x1 x2 Hx E. destruct (Z.lt_ge_cases (val x1) m) as [C|C]; [exfalso|exact C].
       pose proof (value_range a off n m x1 ltac:(lia)) as Vr. fold val in Vr.
       specialize (H (val x1) ltac:(apply in_zrange; lia)). rewrite irs_hold_map, forallb_forall in H.
@@ -207,10 +207,10 @@ Section Binary.
   Qed.
 
   Theorem bin_nondecreasing_sem :
-    irs_hold a (force_nondecreasing off (MBinary n m)) = true <->
+    irs_hold a (vm_force_nondecreasing off (MBinary n m)) = true <->
     forall u1 u2, 1 <= u1 < u2 /\ u2 <= n -> val u2 < val u1 -> m <= val u1.
   Proof.
-    cbn [force_nondecreasing m_domain m_range]. rewrite irs_hold_flat_map, forallb_forall. pose proof (m_le_pow m Hm) as Mp. split.
+    cbn [vm_force_nondecreasing m_domain m_range]. rewrite irs_hold_flat_map, forallb_forall. pose proof (m_le_pow m Hm) as Mp. split.
     - intros H u1 u2 Hu D. destruct (Z.lt_ge_cases (val u1) m) as [C|C]; [exfalso|exact C].
       pose proof (value_range a off n m u2 ltac:(lia)) as Vr. fold val in Vr.
       specialize (H (u1, u2) ltac:(apply in_pairs_zrange_Z; lia)). rewrite irs_hold_map, forallb_forall in H.
@@ -229,7 +229,7 @@ Section Binary.
 
   (* together with completeness: the usual reading *)
   Corollary bin_complete_injective :
-    irs_hold a (force_complete off (MBinary n m) ++ force_injective off (MBinary n m)) = true <->
+    irs_hold a (vm_force_complete off (MBinary n m) ++ vm_force_injective off (MBinary n m)) = true <->
     (forall i, 1 <= i <= n -> val i < m) /\ (forall x1 x2, 1 <= x1 < x2 /\ x2 <= n -> val x1 <> val x2).
   Proof.
     rewrite irs_hold_app, andb_true_iff, bin_complete_sem, bin_injective_sem. split.
@@ -238,7 +238,7 @@ Section Binary.
   Qed.
 
   Corollary bin_complete_nondecreasing :
-    irs_hold a (force_complete off (MBinary n m) ++ force_nondecreasing off (MBinary n m)) = true <->
+    irs_hold a (vm_force_complete off (MBinary n m) ++ vm_force_nondecreasing off (MBinary n m)) = true <->
     (forall i, 1 <= i <= n -> val i < m) /\ (forall u1 u2, 1 <= u1 < u2 /\ u2 <= n -> val u1 <= val u2).
   Proof.
     rewrite irs_hold_app, andb_true_iff, bin_complete_sem, bin_nondecreasing_sem. split.
@@ -247,13 +247,13 @@ Section Binary.
     - intros [C I]. split; [exact C|]. intros u1 u2 Hu D. specialize (I u1 u2 Hu). lia.
   Qed.
 
-  Theorem bin_functional_sem : force_functional off (MBinary n m) = [].
+  Theorem bin_functional_sem : vm_force_functional off (MBinary n m) = [].
   Proof. reflexivity. Qed.
 
   (* force_surjective_mapping on a binary mapping always ends in ValueError *)
-  Theorem bin_surjective_raises : snd (force_surjective off (MBinary n m)) = true.
+  Theorem bin_surjective_raises : snd (vm_force_surjective off (MBinary n m)) = true.
   Proof.
-    cbn [force_surjective snd]. apply Z.ltb_lt.
+    cbn [vm_force_surjective snd]. apply Z.ltb_lt.
     destruct (Z.eq_dec m 1) as [->|N]; [cbn; lia|]. pose proof (bitlength_spec m ltac:(lia)) as [B _].
     pose proof (bitlength_nonneg m) as K.
     destruct (Z.lt_ge_cases (bitlength m) m) as [C|C]; [exact C|exfalso].
@@ -262,19 +262,19 @@ Section Binary.
 
   (* every literal produced is a non-zero integer: the constraints transfer to both renderings *)
   Theorem bin_constraints_ok :
-    irs_ok (force_complete off (MBinary n m)) = true /\ irs_ok (force_injective off (MBinary n m)) = true /\
-    irs_ok (force_nondecreasing off (MBinary n m)) = true.
+    irs_ok (vm_force_complete off (MBinary n m)) = true /\ irs_ok (vm_force_injective off (MBinary n m)) = true /\
+    irs_ok (vm_force_nondecreasing off (MBinary n m)) = true.
   Proof.
     pose proof (m_le_pow m Hm) as Mp. split; [|split].
-    - cbn [force_complete m_domain]. rewrite irs_ok_flat_map. apply forallb_forall. intros i Hi. apply in_zrange in Hi.
+    - cbn [vm_force_complete m_domain]. rewrite irs_ok_flat_map. apply forallb_forall. intros i Hi. apply in_zrange in Hi.
       rewrite irs_ok_map. apply forallb_forall. intros j Hj. apply in_zrange in Hj.
       apply (proj2 (forbid_cl_sem a off n m i j Hoff ltac:(lia) ltac:(lia))).
-    - cbn [force_injective m_domain m_range]. rewrite irs_ok_flat_map. apply forallb_forall. intros y Hy. apply in_zrange in Hy.
+    - cbn [vm_force_injective m_domain m_range]. rewrite irs_ok_flat_map. apply forallb_forall. intros y Hy. apply in_zrange in Hy.
       rewrite irs_ok_map. apply forallb_forall. intros [x1 x2] Hx. apply in_pairs_zrange_Z in Hx.
       unfold ir_ok. cbn [ir_lits fst snd]. rewrite lits_ok_app.
       rewrite (proj2 (forbid_cl_sem a off n m x1 y Hoff ltac:(lia) ltac:(lia))).
       now rewrite (proj2 (forbid_cl_sem a off n m x2 y Hoff ltac:(lia) ltac:(lia))).
-    - cbn [force_nondecreasing m_domain m_range]. rewrite irs_ok_flat_map. apply forallb_forall. intros [u1 u2] Hu. apply in_pairs_zrange_Z in Hu.
+    - cbn [vm_force_nondecreasing m_domain m_range]. rewrite irs_ok_flat_map. apply forallb_forall. intros [u1 u2] Hu. apply in_pairs_zrange_Z in Hu.
       rewrite irs_ok_map. apply forallb_forall. intros [v1 v2] Hv. apply in_pairs_zrange_Z in Hv.
       unfold ir_ok. cbn [ir_lits fst snd]. rewrite lits_ok_app.
       rewrite (proj2 (forbid_cl_sem a off n m u1 v2 Hoff ltac:(lia) ltac:(lia))).
